@@ -353,12 +353,31 @@ def run(ctx):
         cases.append("a<" * d + "b" + ">" * d)
         cases.append("t<" + ",".join("x%d" % i for i in range(d)) + ">")
         cases.append("a<" * d + "b" + ">" * (d - 1))
+    # WIDE names far beyond the recursion limit (a tuple of 1200 / 5000 fields, flat; also with one delimiter wrong): length is no
+    # excuse -- the answer is the grammar's; and names NESTED deeper than the limit (known finding: RecursionError, see below)
+    import sys
+    for d in (1200, 5000):
+        wide = "t<" + ",".join("x%d" % i for i in range(d)) + ">"
+        cases += [wide, wide[:-1], wide + ">", wide.replace(",x7,", ",,", 1), ",".join("a" for _ in range(d)), "t<" + ",".join("u<v>" for _ in range(d)) + ">"]
+    deep_from = len(cases)
+    for d in (1100, 3000):
+        cases += ["a<" * d + "b" + ">" * d, "a<" * d + "b" + ">" * (d + 1), "a<" * d + "b" + ">" * d + "x"]
+    old_limit = sys.getrecursionlimit()
     replies = model_batch([[1, zs(s)] for s in cases])
     n_acc = 0
-    for s, rep in zip(cases, replies):
-        im = impl_parse(g, s)
+    for ci, (s, rep) in enumerate(zip(cases, replies)):
+        im = impl_parse(g, s)                                  # (under the interpreter's own recursion limit)
         mo = model_obs(rep)
-        orc = oracle_obs(s)
+        sys.setrecursionlimit(max(old_limit, 20000))          # (for the independent oracle parser, which is recursive too)
+        try:
+            orc = oracle_obs(s)
+        finally:
+            sys.setrecursionlimit(old_limit)
+        if ci >= deep_from and im == ("err", "RecursionError"):
+            ctx.case(s, True)
+            ctx.add("oracle", "deep-nesting-recursion", "a type name nested %d levels deep (%s by the grammar): the parser raises RecursionError" % (s.count("<"), "accepted" if orc[0] == "ok" else "rejected"),
+                    {"type_name_head": s[:40], "nesting": s.count("<")})
+            continue
         nontrivial = any(c in s for c in DELIMS)
         ctx.case(s, nontrivial)
         if im[0] == "ok":
@@ -374,6 +393,7 @@ def run(ctx):
             ctx.add("corr", "model-impl-differ",
                     "type name %r: implementation %s, model %s" % (s, _short(im), _short(mo)),
                     {"type_name": s, "impl": im, "model": mo, "stream": "C15 parse_type correspondence"})
+    sys.setrecursionlimit(old_limit)
     ctx.count("accepted", n_acc)
     ctx.cov["exhaustive"] = False
     ctx.cov["exhaustive_part"] = "all %d strings over {a,b,<,>,','} of length <= %d" % (n_exh, maxlen)
